@@ -113,6 +113,10 @@ fn packed_semantics(
 }
 
 fn c06_check(case: &Case, ctx: &mut Ctx) -> Result<(), String> {
+    if case.sub.starts_with("scenario:giant-packed-pattern") {
+        let mut c = Ctx::default();
+        return giant_pattern_scenario("C06", &mut c).map_err(|v| v.reason);
+    }
     let pc = case.packed.as_ref().ok_or("C06 case without packed config")?;
     if case.patterns.iter().any(|p| p.is_empty()) || case.span.0 > case.span.1 {
         return Err("unsound C06 case (empty pattern or start > end)".into());
@@ -270,9 +274,60 @@ fn c06_strategy(tier: Tier) -> BoxedStrategy<Case> {
         .boxed()
 }
 
+/// Deterministic scenario: a packed searcher holding one very long pattern
+/// (64 KiB and 64 KiB + 100 bytes) next to a short one. Lengths above 65535
+/// do not fit 16-bit bookkeeping; expectations are known by construction.
+fn giant_pattern_scenario(prop: &str, ctx: &mut Ctx) -> Result<(), Violation> {
+    let mut sd = 0x2545f4914f6cdd1du64;
+    for plen in [65_536usize, 65_636] {
+        let p: Vec<u8> = (0..plen)
+            .map(|_| {
+                sd = sd.wrapping_mul(6364136223846793005).wrapping_add(1442695040888963407);
+                1 + ((sd >> 33) % 200) as u8
+            })
+            .collect();
+        let short = vec![0xFEu8, 0xFD, 0xFC];
+        let pats = vec![p.clone(), short.clone()];
+        let mut h1 = vec![0xFFu8; 50];
+        h1.extend_from_slice(&p[..100]);
+        h1.extend(std::iter::repeat(0xFF).take(150));
+        let mut h2 = vec![0xFFu8; 10];
+        h2.extend_from_slice(&p);
+        h2.extend(std::iter::repeat(0xFF).take(5));
+        h2.extend_from_slice(&short);
+        let expect2 = vec![M { pat: 0, start: 10, end: 10 + plen }, M { pat: 1, start: 15 + plen, end: 18 + plen }];
+        for variant in [PackedVariant::Default, PackedVariant::Slim128, PackedVariant::Fat256, PackedVariant::RabinKarp] {
+            for ll in [false, true] {
+                let pc = PackedCfg { variant, leftmost_longest: ll, heuristic_limits: false };
+                let stand_in = Case { prop: prop.to_string(), sub: format!("scenario:giant-packed-pattern:{}", plen), packed: Some(pc.clone()), params: vec![plen as i64], ..Case::default() };
+                let fail = |reason: String| Violation { case: stand_in.clone(), reason };
+                let ps = match build_packed(&pc, &pats).map_err(|e| fail(e))? {
+                    Some(ps) => ps,
+                    None => continue,
+                };
+                let r1 = guard(|| ps.find_iter(&h1).take(8).map(to_m).collect::<Vec<M>>()).map_err(|p| fail(format!("giant pattern ({} bytes, {:?}): panic on a haystack holding only its first 100 bytes: {}", plen, variant, p)))?;
+                if !r1.is_empty() {
+                    return Err(fail(format!("giant pattern ({} bytes, {:?}): matches {:?} reported in a 300-byte haystack that holds only the first 100 bytes of the pattern", plen, variant, r1)));
+                }
+                let r2 = guard(|| ps.find_iter(&h2).take(8).map(to_m).collect::<Vec<M>>()).map_err(|p| fail(format!("giant pattern ({} bytes, {:?}): panic: {}", plen, variant, p)))?;
+                if r2 != expect2 {
+                    return Err(fail(format!("giant pattern ({} bytes, {:?}, leftmost_longest={}): expected {:?}, got {:?}", plen, variant, ll, expect2, r2)));
+                }
+                ctx.begin();
+                ctx.nontrivial();
+                ctx.class(&format!("scenario:giant-packed-pattern/{}", variant_name(variant)));
+                ctx.end(&stand_in);
+                ctx.enumerated += 1;
+            }
+        }
+    }
+    Ok(())
+}
+
 /// Deterministic sweep: every haystack length 0..=2V+8 and every plant
 /// offset, for every variant x mask length, on fixed colliding pattern sets.
 fn c06_extra(tier: Tier, _seed: u64, ctx: &mut Ctx) -> Result<bool, Violation> {
+    giant_pattern_scenario("C06", ctx)?;
     let families: Vec<Vec<Vec<u8>>> = vec![
         // same low nybbles, different high nybbles
         vec![vec![0x41, 0x42, 0x43, 0x44, 0x45], vec![0x51, 0x52, 0x53, 0x54], vec![0x61, 0x62, 0x63, 0x64, 0x65, 0x66], vec![0x41, 0x52, 0x63, 0x74]],
@@ -371,7 +426,7 @@ pub const C06: PropDef = PropDef {
 variant forced through the hidden Config knobs: Rabin-Karp, slim Teddy 128-bit, slim Teddy 256-bit, fat Teddy 256-bit, default; both match kinds; \
 haystacks: a pattern planted at every offset 0..90 in filler (optionally a second one) with 0..70 trailing bytes, or the general piece-built haystack up to 400 (thorough 4K) bytes; random spans. \
 Oracle: reference model leftmost-first/-longest find for find_in/find and the model iterator for find_iter. \
-Deterministic sweep (enumerated): 4 fixed colliding families x mask length 1..4 x 5 variants x 2 kinds x every haystack length 0..72 x every pattern x every plant offset. \
+Deterministic scenario: one pattern of 65536 / 65636 bytes next to a short one, every forced variant, expectations known by construction. Deterministic sweep (enumerated): 4 fixed colliding families x mask length 1..4 x 5 variants x 2 kinds x every haystack length 0..72 x every pattern x every plant offset. \
 Non-trivial = >= 2 patterns, a match exists, the intended algorithm ran (span length >= minimum_len for Teddy) and (the match starts >= 16 bytes into the span or two patterns collide in their low-nybble fingerprint). Distinct = distinct case fingerprint.",
     assumptions: &["x86-64 with SSSE3 and AVX2 (all 12 Teddy variants constructible); aarch64 NEON not exercised", "reference model"],
     cases_quick: 600_000,
@@ -473,6 +528,10 @@ impl Regions {
 /// pages. Any out-of-bounds access kills the process with SIGSEGV (seen by
 /// the parent); panics and post-condition failures are returned as Err.
 pub fn c15_inproc(case: &Case, regions: &mut Regions, ctx: &mut Ctx) -> Result<(), String> {
+    if case.sub.starts_with("scenario:giant-packed-pattern") {
+        let mut c = Ctx::default();
+        return giant_pattern_scenario("C15", &mut c).map_err(|v| v.reason);
+    }
     let cfg = &case.cfg;
     if !cfg.supports_anchored(case.anchored) || case.haystack.len() > 60_000 {
         return Err("unsound C15 case".into());
@@ -785,6 +844,7 @@ fn c15_check_spawn(case: &Case, _ctx: &mut Ctx) -> Result<(), String> {
 }
 
 fn c15_extra(tier: Tier, seed: u64, total: &mut Ctx) -> Result<bool, Violation> {
+    giant_pattern_scenario("C15", total)?;
     let cases: u64 = match tier {
         Tier::Quick => 400_000,
         Tier::Thorough => 3_000_000,
